@@ -32,6 +32,7 @@ ASSUMPTIONS = ['default configuration (enforce_new_defaults on); no scope '
 ROLES = ('a', 'b', 'c', 'd', 'z')
 SUBSETS = [[r for i, r in enumerate(ROLES) if m >> i & 1] for m in range(32)]
 TARGETS = ({'k': 'x'}, {'k': 'y'})
+ADMIN = (False, True)     # is_admin paired with the target of same index
 BOUNDS = {'quick': dict(entries=2), 'thorough': dict(entries=3)}
 
 
@@ -48,7 +49,9 @@ def default_set(P, kind):
              P.DocumentedRuleDefault('svc:b', 'role:b or role:c', 'B',
                                      [{'path': '/b', 'method': 'GET'}])]
     if kind == 'plain':
-        return plain, {}
+        # svc:adm has a literal in a case-sensitive position
+        return plain + [P.RuleDefault('svc:adm',
+                                      'is_admin:True or rule:svc:a')], {}
     if kind == 'renamed':
         return [P.RuleDefault('svc:new', 'role:a',
                               deprecated_rule=dep('svc:old', 'role:a')),
@@ -73,8 +76,9 @@ def default_set(P, kind):
 
 KINDS = ('plain', 'renamed', 'split', 'changed', 'mix')
 VALUE_KINDS = ('default', 'variant', 'different', 'dquote', 'allow', 'deny',
-               'empty', 'list1', 'list2', 'list0', 'alias')
-TEXT_KINDS = ('default', 'variant', 'different', 'allow', 'deny', 'empty')
+               'empty', 'list1', 'list2', 'list0', 'alias', 'casevariant')
+TEXT_KINDS = ('default', 'variant', 'different', 'allow', 'deny', 'empty',
+              'casevariant')
 
 
 def value(vk, name, defaults, successors):
@@ -90,6 +94,11 @@ def value(vk, name, defaults, successors):
         return '( %s )' % base.replace(' or ', '  OR ')
     if vk == 'different':
         return 'role:d and not role:z'
+    if vk == 'casevariant':
+        # differs from the default only by letter case, but in places where
+        # case matters (a literal, a rule name): a DIFFERENT rule
+        v = base.replace('True', 'true').replace('rule:svc:a', 'rule:SVC:a')
+        return v if v != base else None
     if vk == 'dquote':
         return '"x":%(k)s'
     if vk == 'allow':
@@ -169,7 +178,9 @@ def vector(P, defaults, layout, names):
         for n in names:
             for t in TARGETS:
                 for rs in SUBSETS:
-                    out.append(world.decide(enf, n, t, {'roles': rs}))
+                    out.append(world.decide(
+                        enf, n, t, {'roles': rs,
+                                    'is_admin': ADMIN[TARGETS.index(t)]}))
         return out
     finally:
         w.destroy()
